@@ -469,6 +469,11 @@ def _set_traits(context, rp, traits):
     to_delete = existing_traits - want_traits
 
     if not to_add and not to_delete:
+        # Nothing to change, so the generation is not incremented, but the
+        # caller's view of the provider must still be the current one.
+        sel = sa.select(_RP_TBL.c.generation).where(_RP_TBL.c.id == rp.id)
+        if context.session.execute(sel).scalar() != rp.generation:
+            raise exception.ResourceProviderConcurrentUpdateDetected()
         return
 
     if to_delete:
